@@ -44,9 +44,10 @@ RULE_FAULTS = (
        "times-neg-min-only-inside", "times-neg-min-only-sibling", "times-neg-max-inside", "times-neg-max-sibling", "times-neg-max-group",
        "undefined-macro-no-defs", "undefined-macro-file-defs", "undefined-macro-extra-file",
        "undefined-macro-in-mnemonic-file-defs", "undefined-macro-in-mnemonic-extra-file", "undefined-macro-in-operand-file-defs", "undefined-macro-in-operand-extra-file",
-       "undefined-macro-key-times-file-defs", "undefined-macro-key-operands-extra-file"]
+       "undefined-macro-key-times-file-defs", "undefined-macro-key-operands-extra-file",
+       "undefined-macro-in-last-macro-body", "undefined-macro-in-first-macro-body-extra-file"]
 )
-INPUT_FAULTS = ["input-file-" + f for f in FILE_FAULTS]
+INPUT_FAULTS = ["input-file-" + f for f in FILE_FAULTS] + ["input-file-utf16"]
 BINARY_FAULTS = ["objdump-absent", "objdump-exit1", "objdump-exit3", "objdump-signal", "objdump-half-then-fail", "objdump-banner-then-fail", "sections-all-absent"]
 FAULTS = {"assembly": RULE_FAULTS + INPUT_FAULTS, "binary": RULE_FAULTS + INPUT_FAULTS + BINARY_FAULTS}
 FLOORS = {}
@@ -161,6 +162,15 @@ def inject_rule_fault(fault, doc, pos, garbage):
             pat[k] = {"$and": [pat[k]], "times": t}
         else:
             pat[k] = _set_times(pat[k], t, where)
+    elif fault in ("undefined-macro-in-last-macro-body", "undefined-macro-in-first-macro-body-extra-file"):
+        # the undefined reference is introduced by the expansion itself: it sits in the body of a macro the rule uses
+        wrap = {"name": "@wrap_", "pattern": [{"$or": ["zzq", "@zz_undefined"]}] if pos % 2 else [{"mov": ["rax", "@zz_undefined"]}]}
+        other = {"name": "@other_", "pattern": "other"}
+        pat.insert(k, "@wrap_")
+        if fault.endswith("extra-file"):
+            extra = [wrap, other]
+        else:
+            doc["macros"] = [other, wrap]
     elif fault.startswith("undefined-macro"):
         if "-in-mnemonic-" in fault:
             pat.insert(k, "x@zz_undefined")  # substitution inside a longer name is a supported macro use
@@ -194,6 +204,12 @@ def make_path_fault(kind, sc, name, good_path):
         return p
     if kind == "dangling-symlink":
         os.symlink(os.path.join(sc.dir, "nowhere-to-be-found"), p)
+        return p
+    if kind == "utf16":
+        # the same content saved as UTF-16 with a byte-order mark (what a PowerShell `objdump > out.s` redirect writes): it is
+        # not the text the parser reads, so it cannot have been scanned
+        with open(good_path, "rb") as f, open(p, "wb") as g:
+            g.write(f.read().decode("latin-1").encode("utf-16"))
         return p
     with open(good_path, "rb") as f, open(p, "wb") as g:
         g.write(f.read())
